@@ -55,7 +55,13 @@ type decision struct {
 }
 
 func (d decision) String() string {
-	return fmt.Sprintf("%s/mark=%#x/must=%v", consts.OutboundIndex(d.ob).String(), d.mark, d.must)
+	name := consts.OutboundIndex(d.ob).String()
+	if d.ob == groupG1 {
+		name = "g1"
+	} else if d.ob == groupG2 {
+		name = "g2"
+	}
+	return fmt.Sprintf("%s/mark=%#x/must=%v", name, d.mark, d.must)
 }
 
 type mflow struct {
